@@ -199,12 +199,106 @@ def _arrays(case, structs):
     return [np.array(s, dtype=dt).reshape(len(s), d) for s in structs]
 
 
+def build_arrays(case):
+    """(train list, test list) handed to the implementation.  A case with a "layout" (alias
+    family) is presented as VIEWS of a few big arrays: prefix / suffix / strided / reversed
+    slices that may overlap or start at the same address, and the same ndarray object used more
+    than once; with case["present"] == "copies" the same values go in as independent arrays."""
+    lay = case.get("layout")
+    if not lay or case.get("present") == "copies":
+        return _arrays(case, case["train"]), _arrays(case, case["test"])
+    d = len(case["train"][0][0])
+    bufs = [np.array(b, dtype=float).reshape(len(b), d) for b in lay["buffers"]]
+    objs = {}
+
+    def mk(spec):
+        b, st, sp, step, oid = spec
+        if oid is not None and oid in objs:
+            return objs[oid]
+        v = bufs[b][slice(st, sp, step)]
+        if oid is not None:
+            objs[oid] = v
+        return v
+    tr, te = [mk(x) for x in lay["train"]], [mk(x) for x in lay["test"]]
+    for arrs, vals in ((tr, case["train"]), (te, case["test"])):     # the views carry the case's values
+        assert len(arrs) == len(vals) and all(a.tolist() == v for a, v in zip(arrs, vals))
+    return tr, te
+
+
+def _rand_spec(rng, n):
+    """a non-empty python slice (start, stop, step) of range(n)"""
+    for _ in range(50):
+        kind = rng.choice(["whole", "prefix", "prefix", "suffix", "middle", "stride0", "stride1", "pstride", "rev"])
+        k = rng.randint(1, max(1, n - 1))
+        sp = {"whole": (None, None, 1), "prefix": (None, k, 1), "suffix": (k, None, 1),
+              "middle": (min(k, n - 1), min(n, k + rng.randint(1, 3)), 1), "stride0": (None, None, 2),
+              "stride1": (1, None, 2), "pstride": (None, k, 2), "rev": (None, None, -1)}[kind]
+        if len(range(n)[slice(*sp)]) > 0:
+            return sp
+    return (None, None, 1)
+
+
+def gen_alias_case(rng, quick):
+    """Main-domain case whose structures are slices of 1-3 big arrays of environments; at
+    least one pair of DIFFERENT structures starts at the same row of the same array (e.g. A and
+    A[:k], A[:1] in the test set with A in the training set), some ndarray objects are used
+    twice."""
+    dmax, smax, emax = (8, 6, 6) if quick else (12, 10, 8)
+    for _ in range(200):
+        d = rng.randint(1, dmax)
+        fam = rng.choice(FAMILIES)
+        scale = 10.0 ** rng.uniform(-3, 3) if rng.random() < 0.5 else 1.0
+        basis = [[rng.gauss(0, 1) for _ in range(d)] for _ in range(rng.randint(1, max(1, d - 1)))]
+        buffers = [_rows(rng, rng.randint(2, 2 * emax), d, fam, basis, scale) for _ in range(rng.randint(1, 3))]
+        oid = [0]
+
+        def spec(b, sp, share=False):
+            oid[0] += 1
+            return [b, sp[0], sp[1], sp[2], oid[0] if share else None]
+        train, test = [], []
+        for _k in range(rng.randint(1, smax)):
+            b = rng.randrange(len(buffers))
+            train.append(spec(b, _rand_spec(rng, len(buffers[b]))))
+        for _k in range(rng.randint(1, 4)):
+            b = rng.randrange(len(buffers))
+            test.append(spec(b, _rand_spec(rng, len(buffers[b]))))
+        # same-start siblings: a structure and a shorter / strided view from the same first row
+        for _k in range(rng.randint(1, 3)):
+            src = rng.choice(train + test)
+            b, st, sp_, step = src[0], src[1], src[2], src[3]
+            rows = range(len(buffers[b]))[slice(st, sp_, step)]
+            if step == -1:
+                sib = (None, None, -2) if len(rows) > 1 else (None, None, -1)
+            else:
+                k = rng.randint(1, len(rows))
+                stop = rows[k - 1] + 1
+                sib = (st, stop, step) if rng.random() < 0.7 else (st, sp_, step * 2)
+            if len(range(len(buffers[b]))[slice(*sib)]) == 0:
+                continue
+            (train if rng.random() < 0.5 else test).insert(rng.randint(0, 1), spec(b, sib))
+        # the same ndarray object twice
+        if rng.random() < 0.4:
+            src = rng.choice(train + test)
+            src[4] = 10_000 + oid[0]
+            (train if rng.random() < 0.5 else test).append(list(src))
+        vals = lambda specs: [buffers[x[0]][slice(x[1], x[2], x[3])] for x in specs]  # noqa: E731
+        tr_v, te_v = vals(train), vals(test)
+        comp_dims = _composition(rng, d)
+        if not _blocks_nonzero(tr_v, te_v, comp_dims):
+            continue
+        return dict(kind=rng.choice(["lpr", "cpr", "cpr"]), train=[[list(r) for r in s] for s in tr_v],
+                    test=[[list(r) for r in s] for s in te_v], alpha=10.0 ** rng.uniform(-8, 8),
+                    comp_dims=comp_dims, family=fam, scale=scale, rank_only=False, int_dtype=False,
+                    layout=dict(buffers=buffers, train=train, test=test), present="views")
+    return None
+
+
 def run_impl(case, arrays=None, raw=None):
     """One call of the public function.  [arrays] = (train list, test list) to pass these very
     objects (call-sequence family); [raw], a list, receives the returned ndarray objects."""
     from skmatter.metrics import componentwise_prediction_rigidity, local_prediction_rigidity
     if arrays is None:
-        tr, te = _arrays(case, case["train"]), _arrays(case, case["test"])
+        tr, te = build_arrays(case)
     else:
         tr, te = arrays
     tr0, te0 = [a.copy() for a in tr], [a.copy() for a in te]
@@ -250,7 +344,10 @@ def run_sequence(cases, reuse=False):
     they were returned (a result must not be a view of state that later calls rewrite)."""
     recs, raws, snaps, prev = [], [], [], None
     for c in cases:
-        tr, te = _arrays(c, c["train"]), _arrays(c, c["test"])
+        tr, te = build_arrays(c)
+        viewed = bool(c.get("layout")) and c.get("present") != "copies"
+        if viewed:
+            prev = None              # overlapping views are never overwritten in place
         if reuse and prev is not None:
             ptr, pte = prev
             if [a.shape for a in ptr] == [a.shape for a in tr] and all(a.dtype == b.dtype for a, b in zip(ptr, tr)):
@@ -269,7 +366,7 @@ def run_sequence(cases, reuse=False):
         recs.append(r)
         raws.append(raw[0] if raw else [])
         snaps.append([np.array(x, copy=True) for x in (raw[0] if raw else [])])
-        prev = (tr, te)
+        prev = None if viewed else (tr, te)
     return recs
 
 
@@ -375,10 +472,12 @@ def gen_sequence(rng, quick):
     """A base case of the main domain followed by 2-4 calls derived from their predecessor:
     same alpha and stacked rows under another grouping (train or test), another alpha, other
     comp_dims, train/test swapped, the other public function, one value changed (with
-    reuse: written into the same ndarray object), back to the first call."""
+    reuse: written into the same ndarray object), back to the first call; 30% of the base cases
+    are alias cases (structures = overlapping views of big arrays) with the extra step
+    "present" (same values as views <-> independent copies)."""
     for _ in range(200):
-        c0 = gen_case(rng, quick)
-        if c0["rank_only"] or c0["int_dtype"] or any(len(s) == 0 for s in c0["test"]):
+        c0 = gen_alias_case(rng, quick) if rng.random() < 0.3 else gen_case(rng, quick)
+        if c0 is None or c0["rank_only"] or c0["int_dtype"] or any(len(s) == 0 for s in c0["test"]):
             continue
         if len(c0["train"][0][0]) >= 2 and sum(len(s) for s in c0["train"]) >= 2:
             break
@@ -393,8 +492,15 @@ def gen_sequence(rng, quick):
         if len(seq) > want:
             break
         c = seq[-1]
-        v = "regroup_train" if (len(seq) == 1 and rng.random() < 0.5) else rng.choice(variants)
+        v = "regroup_train" if (len(seq) == 1 and rng.random() < 0.5) else rng.choice(
+            variants + (["present", "present"] if c.get("layout") else []))
         n = dict(_slim(c))
+        if v in ("regroup_train", "regroup_test", "value"):
+            n.pop("layout", None)        # the values no longer are slices of the big arrays
+            n.pop("present", None)
+        if v == "present":
+            # the same values, the other presentation (views of shared arrays <-> independent copies)
+            n["present"] = "copies" if c.get("present") != "copies" else "views"
         if v == "regroup_train":
             g = _regroup(rng, c["train"])
             if g is None:
@@ -415,6 +521,8 @@ def gen_sequence(rng, quick):
                 continue
         elif v == "swap":
             n["train"], n["test"] = c["test"], c["train"]
+            if c.get("layout"):
+                n["layout"] = dict(c["layout"], train=c["layout"]["test"], test=c["layout"]["train"])
         elif v == "kind":
             n["kind"] = "lpr" if c["kind"] == "cpr" else "cpr"
         elif v == "value":
@@ -709,12 +817,38 @@ def run(ctx):
                  pinv_value_checked=0, metamorphic_cases=0, metamorphic_passed=0,
                  xprime_rel_dev_max=0.0)
     n_zero = 120 if ctx.quick else 800
-    for k in range(ncases + n_zero):
-        c = gen_case(ctx.rng, ctx.quick) if k < ncases else gen_zero_case(ctx.rng, ctx.quick)
+    n_alias = 200 if ctx.quick else 1500
+    stats.update(alias_cases=0, alias_same_start_pairs=0, alias_bit_identical=0, alias_rounding=0, alias_differs=0)
+    for k in range(ncases + n_zero + n_alias):
+        c = (gen_case(ctx.rng, ctx.quick) if k < ncases else
+             gen_zero_case(ctx.rng, ctx.quick) if k < ncases + n_zero else gen_alias_case(ctx.rng, ctx.quick))
         if c is None:
             continue
         r = run_impl(c)
         h = hints(c)
+        if c.get("layout"):
+            # aliasing presentation: the call on views of shared arrays against the same call on
+            # independent copies (bit-identical); the views result goes through Coq like any other
+            stats["alias_cases"] += 1
+            tr_a, te_a = build_arrays(c)
+            ptr = [a.__array_interface__["data"][0] for a in tr_a + te_a]
+            stats["alias_same_start_pairs"] += len(ptr) - len(set(ptr))
+            rc = run_impl(dict(c, present="copies"))
+            lvl = same_result(r, rc, h["cond"])
+            if lvl is None:
+                stats["alias_differs"] += 1
+                msg = oracle(c, r)
+                rep = dict(case=c, observed={kk: v for kk, v in r.items() if kk not in ("xprime", "xinv")},
+                           observed_on_independent_copies={kk: v for kk, v in rc.items() if kk not in ("xprime", "xinv")})
+                if msg:
+                    C.report_violation(ctx, "C20 fails on the implementation when structures are passed as overlapping views "
+                                       "of one array (the same values as independent copies give another result): " + msg,
+                                       rep, found_input=True)
+                else:
+                    C.report_violation(ctx, "correspondence broken: the result depends on whether structures are views of one "
+                                       "array or independent copies of the same values", rep, found_input=False)
+                continue
+            stats["alias_bit_identical" if lvl == "bit" else "alias_rounding"] += 1
         cases.append(c)
         recs.append(r)
         hs.append(h)
